@@ -321,3 +321,80 @@ func c18Gen(t *rapid.T) C18Case {
 func TestC18(t *testing.T) {
 	evid.Run(t, "C18", c18Gen, c18Check)
 }
+
+// C18FaultCase: some of the concurrent opens fail. The outcome (an error) has to be the same on
+// every run, and - the point of this stage, which is built with the race detector - whatever the
+// goroutines of the failed opens do must be free of data races as well.
+type C18FaultCase struct {
+	N       int    `json:"n"`
+	Failing []int  `json:"failing"` // indexes of the containers whose open fails
+	ErrKind string `json:"err_kind,omitempty"`
+	Query   string `json:"query"`
+	Gated   bool   `json:"gated,omitempty"`
+	Reps    int    `json:"reps"`
+}
+
+func c18FaultCheck(c C18FaultCase) (r evid.Result) {
+	r.Class(true, fmt.Sprintf("failing-opens=%d", len(c.Failing)))
+	r.Class(c.Gated, "gated")
+	r.NonTrivial = len(c.Failing) >= 2
+	var first string
+	for rep := 0; rep < c.Reps; rep++ {
+		d := &fakedocker.Daemon{ErrKind: c.ErrKind}
+		for i := 0; i < c.N; i++ {
+			ct := dl.Ctr(fmt.Sprintf("id%d", i), fmt.Sprintf("c%d", i), nil, []dl.Line{{TS: 1700000000e9 + int64(i), Msg: fmt.Sprintf("line of c%d", i)}})
+			for _, f := range c.Failing {
+				if f == i {
+					ct.OpenErr = true
+				}
+			}
+			d.Containers = append(d.Containers, ct)
+		}
+		if c.Gated && c.N > 1 {
+			d.Waves = []int{c.N}
+			d.Order = [][]int{identity(c.N)}
+		}
+		data, err := dl.Eval(d, c.Query, dl.Params{Start: 1700000000e9 - 10e9, End: 1700000000e9 + 10e9, Step: 1e9, Limit: -1})
+		rep2 := d.Done()
+		r.Evals++
+		outcome := "error"
+		if err == nil {
+			outcome, _, _ = canonResult(data)
+		}
+		if len(c.Failing) > 0 && err == nil {
+			r.Violation = evid.Viol("C18/failed-open-swallowed", "query %s over %d containers, opens of %v failing: evaluation succeeded", c.Query, c.N, c.Failing)
+			return r
+		}
+		if rep2.Opened != rep2.Closed {
+			r.Violation = evid.Viol("C18/readers-left-open", "query %s over %d containers, opens of %v failing: %d readers opened, %d closed", c.Query, c.N, c.Failing, rep2.Opened, rep2.Closed)
+			return r
+		}
+		if rep == 0 {
+			first = outcome
+		} else if outcome != first {
+			r.Violation = evid.Viol("C18/different-answer", "query %s over %d containers, opens of %v failing: repetition %d ended as\n%s\nrepetition 0 as\n%s", c.Query, c.N, c.Failing, rep, trunc1k(outcome), trunc1k(first))
+			return r
+		}
+	}
+	return r
+}
+
+func c18FaultGen(t *rapid.T) C18FaultCase {
+	c := C18FaultCase{N: rapid.IntRange(2, envInt("VERIF_C18_MAXCTRS", 5)+1).Draw(t, "containers")}
+	k := rapid.SampledFrom([]int{0, 1, 2, 2, 3, c.N, c.N}).Draw(t, "failing-opens")
+	if k > c.N {
+		k = c.N
+	}
+	c.Failing = append([]int{}, rapid.Permutation(identity(c.N)).Draw(t, "failing-which")[:k]...)
+	sort.Ints(c.Failing)
+	c.ErrKind = rapid.SampledFrom(fakedocker.ErrKinds).Draw(t, "err-kind")
+	c.Query = rapid.SampledFrom([]string{`{}`, `count_over_time({}[5s])`, `sum(count_over_time({}[5s])) / sum(bytes_over_time({}[5s]))`}).Draw(t, "query")
+	c.Gated = rapid.Bool().Draw(t, "gated")
+	c.Reps = rapid.IntRange(2, 4).Draw(t, "reps")
+	return c
+}
+
+// TestC18OpenFaults is the last sentence of C18 where it is least exercised: opens that fail.
+func TestC18OpenFaults(t *testing.T) {
+	evid.Run(t, "C18", c18FaultGen, c18FaultCheck)
+}
